@@ -221,6 +221,14 @@ def gen(rng, tier):
     for n in range(8185, 8194) if quick else list(range(8180, 8200)) + list(range(16376, 16390)):
         for tail in ([0x22], [0x5C], [0x01]):
             cases.append(ev("info", [(K, "s:" + utok([0x61] * n + tail)), ([ord("z")], "b:1")]))
+    # the same events as the file log writer writes them (LogFileWriter with max_write_bytes at its 64 KiB minimum):
+    # small ones, and lines longer than max_write_bytes (they must come out whole)
+    def fev(level, tags):
+        return "file" + ev(level, tags)[2:]
+    cases.append(fev("info", [(K, "s:" + utok([0x61, 0x22, 0x0A, 0x1F600]))]))
+    cases.append(fev("error", [(K, "s:" + utok([0x61] * 3000 + [0x22])), ([ord("z")], "u128:340282366920938463463374607431768211455")]))
+    for n in (65400, 65536, 70000) if quick else (65400, 65470, 65536, 65537, 70000, 131073, 200000):
+        cases.append(fev("info", [(K, "s:" + utok([0x61] * n + [0x22, 0x5C])), ([ord("z")], "b:1")]))
     for n in (1364, 1365, 1366, 1367) if quick else (1364, 1365, 1366, 1367, 2731, 4096, 8192):
         cases.append(ev("error", [(K, "s:" + utok([0x01] * n)), ([ord("z")], "u8:1")]))
         cases.append(ev("error", [(K, "s:" + utok([0x22] * (3 * n)))]))
@@ -238,7 +246,7 @@ def classify(case, model):
     k = int(t[2])
     kinds = set(x.split(":")[0] for x in t[4::2])
     kinds = set("int" if (x[0] in "iu" and x[1:].isdigit()) or x == "usize" else x for x in kinds)
-    return "ev:tags%s:%s" % ("0" if k == 0 else "1-3" if k <= 3 else "4-10" if k <= 10 else "11-20", "+".join(sorted(kinds)))
+    return "%s:tags%s:%s" % (t[0], "0" if k == 0 else "1-3" if k <= 3 else "4-10" if k <= 10 else "11-20", "+".join(sorted(kinds)))
 
 
 def nontrivial(case, model):
